@@ -316,3 +316,27 @@ func deepClone(v any) (any, error) {
 
 	return ret, nil
 }
+
+// cloneValue returns a structural deep copy of a decoded document tree.
+func cloneValue(v any) any {
+	switch v2 := v.(type) {
+	case map[string]any:
+		ret := make(map[string]any, len(v2))
+		for k, x := range v2 {
+			ret[k] = cloneValue(x)
+		}
+
+		return ret
+
+	case []any:
+		ret := make([]any, len(v2))
+		for i, x := range v2 {
+			ret[i] = cloneValue(x)
+		}
+
+		return ret
+
+	default:
+		return v
+	}
+}
